@@ -20,6 +20,11 @@ CLAIMS = {
  "C09": ("seq", "SeqTrace compares a Dump backfill taken after every step with EventOf(document) for every document of the specification's state, in CAS order between the markers"),
  "C11": ("seq", "TLC property C11_OtherCollectionsUnchanged on the design; SeqTrace checks that the projection of the same keys in the two other collections and their feeds never changes"),
  "C17": ("seq", "TLC property C17_RevIncrementsByOne on the design; SeqTrace compares $document.revid, the number inside $document, live RevNo and backfill RevNo with the specification's revision after every step"),
+ "C04": ("hlc", "RosmarHLC (hybrid logical clock, non-monotonic physical clock, several buckets, persisted marks, restarts) is model-checked by TLC (StrictlyIncreasing, AboveBeforeRestart; witness: without re-seeding on open the property fails); "
+         "TLC-simulated scripts of clock readings (standing still, jumping back), writes through rotating entry points on an in-memory and an on-disk bucket, restarts and re-opens run on the real code with an injected clock, followed by bursts of concurrent writers; "
+         "HLCTrace validates every CAS handed out (returned, read back, on the feed) and the commit order of concurrent ones"),
+ "C10": ("crash", "TLC-generated histories x every crash position (operation index x 14 hook sites around and inside the write transaction) are executed by a child process that SIGKILLs itself at the position; a different process re-opens the on-disk bucket and "
+         "SeqTrace!Reopen requires the acknowledged state plus either nothing or one whole RosmarStore outcome of the in-flight call (body, xattrs, CAS, expiry, revision together), the high-water marks covering every document, and the same UUID, collections, design documents and a re-armed expiry timer"),
  "C12": ("seq", "SeqTrace computes, from the specification's current documents, the rows a non-stale view query must return (map function applied to every document with a body or xattrs, JSON collation order, "
          "key / range / limit / descending / count-reduce variants) and compares them after every step of every TLC-generated behaviour with the incrementally maintained index, and at the end of each behaviour with a freshly built one"),
  "C19": ("seq", "SeqTrace compares, after every step, three SQL queries over $_keyspace (all rows with id/body/xattrs; filter on a body property; filter on an xattr property) with the specification's live documents of that collection, on in-memory (pre-recorded iterator) and on-disk (streaming iterator) buckets"),
@@ -39,8 +44,6 @@ CLAIMS = {
  "C18": ("seq", "TLC property C18_OnlyAddressedProperty on the design; SeqTrace validates sub-document writes/reads on object bodies (present, absent, nested, through non-objects) against RosmarStore's sub-document operators"),
 }
 PENDING = {
- "C04": "HLC family not built yet in this round",
- "C10": "crash family not built yet in this round",
 }
 try:
     from manifest_extra import CLAIMS as C2, PENDING_REMOVE, NOTES
@@ -59,7 +62,7 @@ for pid, (fam, text) in sorted(CLAIMS.items()):
         "evidence_file": "/verif/evidence/%s.json" % pid,
         "replay_cmd_template": "./check %s --replay {path}" % pid,
         "engine": "tlc-" + fam,
-        "level_claimed": {"category": "model_checking", "text": text, "design_ref": "DESIGN.md section 6 (%s)" % pid},
+        "level_claimed": {"category": "fault_enumeration" if pid == "C10" else "model_checking", "text": text, "design_ref": "DESIGN.md section 6 (%s)" % pid},
         "level_note": NOTES.get(pid, SEQ_NOTE),
         "technique": "explicit TLA+ specification checked by TLC, bound to the code by TLC-generated behaviours replayed on the real code and TLC trace validation of the recorded executions",
     })
@@ -75,6 +78,9 @@ m = {
               "kind_free_text": "RosmarConc TLA+ module (schedules), gate scheduler + vh conc, SeqTrace feeds-line validation"},
              {"name": "tlc-life", "path": "/verif/spec", "serves_properties": ["C11", "C13", "C16", "C20"],
               "kind_free_text": "RosmarLifeOps/RosmarLife/LifeTrace TLA+ modules + vh life"},
+             {"name": "tlc-hlc", "path": "/verif/spec", "serves_properties": ["C04"], "kind_free_text": "RosmarHLC/HLCTrace + vh hlc (injected clock)"},
+             {"name": "tlc-crash", "path": "/verif/spec", "serves_properties": ["C10"], "kind_free_text": "SeqTrace!Reopen + vh crashchild/crashcheck (SIGKILL at hook sites)"},
+             {"name": "tlc-shut", "path": "/verif/spec", "serves_properties": ["C13", "C20"], "kind_free_text": "RosmarShutdown lock-level model, ShutTrace + vh shut (one process per schedule)"},
              {"name": "tlc-exp", "path": "/verif/spec", "serves_properties": ["C14"],
               "kind_free_text": "RosmarExpiryOps/RosmarExpiry/ExpTrace TLA+ modules + vh exp (real-time timeline)"}],
  "checks": checks,
